@@ -433,6 +433,22 @@ class Frame(PyStub):
         f.sorted_by = by
         return f
 
+    def set_index(self, by, **kw):
+        f = Frame({c: v for c, v in self.cols.items() if c != by}, self.n)
+        f.index = list(self.cols[by])
+        f.sorted_by = self.sorted_by
+        return f
+
+    def sort_index(self, **kw):
+        idx = getattr(self, 'index', list(range(self.n)))
+        order = sorted(range(self.n), key=lambda r: int(idx[r]))
+        f = Frame({c: [v[r] for r in order] for c, v in self.cols.items()}, self.n)
+        f.index = [idx[r] for r in order]
+        return f
+
+    def reset_index(self, drop=False, **kw):
+        return Frame(self.cols, self.n)
+
     @property
     def values(self):
         a = np.empty((self.n, len(self.cols)), dtype=object)
@@ -440,3 +456,27 @@ class Frame(PyStub):
             for r in range(self.n):
                 a[r, j] = self.cols[c][r]
         return a
+
+
+def text_to_lines(text, render):
+    """written text (Text value of the writer's evaluation) -> list of Line: literal words stay strings, formatted values become their symbolic values"""
+    tpl, vals = render(text)
+    lines = []
+    k = 0
+    import re as _re
+    for raw in tpl.split('\n'):
+        toks = []
+        for w in raw.split():
+            # a word may contain several placeholders glued to text only in degenerate cases; the writers separate them by blanks
+            m = _re.fullmatch(r'\{[^{}]*\}', w)
+            if m:
+                toks.append(vals[k])
+                k += 1
+            elif '{' in w:
+                raise Opaque('token mixes text and a formatted value: %r' % w)
+            else:
+                toks.append(w)
+        lines.append(Line(toks))
+    if k != len(vals):
+        raise Opaque('tokeniser consumed %d of %d values' % (k, len(vals)))
+    return lines
